@@ -22,7 +22,8 @@ def specs(draw, tier):
     spec = {"family": fam, "threshold": draw(st.sampled_from(THRESHOLDS))}
     nd = 1
     if fam == "cart":
-        dim = draw(st.sampled_from([1, 2, 2, 3]))
+        corner3d = draw(st.integers(0, 9)) == 0  # a single droplet on the corner of a fully periodic 3-D box, off-centre
+        dim = 3 if corner3d else draw(st.sampled_from([1, 2, 2, 3]))
         spacing = [gen.r6(base * draw(st.floats(0.7, 1.4, **finite))) for _ in range(dim)]
         dmax = max(spacing)
         rc = draw(st.floats(3, 8 if dim < 3 else 4.5, **finite))  # radius in cells of the largest spacing
@@ -34,7 +35,7 @@ def specs(draw, tier):
         need = 2 * (rc + 4 * wc) + 4
         extra = draw(st.integers(0, 12 if dim < 3 else 4))
         shape = [int(math.ceil(need * dmax / s)) + extra + (int(math.ceil((nd - 1) * (2 * rc + 14 * wc) * dmax / s)) if a == 0 else 0) for a, s in enumerate(spacing)]
-        periodic = [draw(st.booleans()) for _ in range(dim)]
+        periodic = [True] * dim if corner3d else [draw(st.booleans()) for _ in range(dim)]
         origin = [gen.r6(s * draw(st.floats(-20, 20, **finite))) for s in spacing]
         g = {"origin": origin, "shape": shape, "spacing": spacing, "periodic": periodic}
         spec["grid"] = g
@@ -48,9 +49,12 @@ def specs(draw, tier):
             wk = w * draw(st.floats(0.8, 1.0, **finite)) if k else w
             wk = max(wk, dmax)
             pos = []
+            corner = nd == 1 and (corner3d or draw(st.integers(0, 4)) == 0)  # the droplet sits on the corner of all periodic axes, off-centre
             for a in range(dim):
                 m = Rk + 4 * wk + dmax
-                if periodic[a]:
+                if periodic[a] and corner:
+                    x = origin[a] + draw(st.sampled_from([0.0, 1.0])) * L[a] + draw(st.floats(-0.9, 0.9, **finite)) * Rk
+                elif periodic[a]:
                     if draw(st.integers(0, 3)) == 0:  # centre within a fraction of a cell of the periodic boundary (either side)
                         x = origin[a] + draw(st.sampled_from([0.0, 1.0])) * L[a] + draw(st.sampled_from([-0.3, -0.1, -0.03, -0.005, 0.0, 0.005, 0.03, 0.1, 0.3])) * spacing[a]
                     else:
